@@ -38,6 +38,12 @@ Proof. exact lexer_fuel_sufficient. Qed.
    (the type err has exactly these nine constructors) *)
 Theorem C01_record_well_formed : forall h s, well_formed (fst (parse_formula h s)).
 Proof. exact record_well_formed. Qed.
+(* ... in particular whatever the registered built-ins outside the model return or raise (h_oracle is an arbitrary
+   function of the name and the evaluated arguments), as long as they return *)
+Theorem C01_whatever_the_builtins_do : forall oracle vars funs cells ranges registry varset funset s,
+  well_formed (fst (parse_formula {| h_vars := vars; h_funs := funs; h_cells := cells; h_ranges := ranges; h_registry := registry;
+                                     h_varset := varset; h_funset := funset; h_oracle := oracle |} s)).
+Proof. intros. apply record_well_formed. Qed.
 Theorem C01_error_codes_closed : forall m, In (from_message_gen m) (map err_spelling all_errs).
 Proof. exact from_message_closed. Qed.
 Theorem C01_nine_codes : forall e : err, In e all_errs.
